@@ -185,7 +185,7 @@ def gen_rdbi(rng, n):
         for d in lst:
             kind = DIDS.get(d, default)
             ln = kind[1] if kind[1] is not None else rng.randrange(0, 5)
-            v = bytes(rng.randrange(0x20, 0x7F) for _ in range(ln))
+            v = bytes(rng.randrange(0x20, 0x7F) for _ in range(ln)) if rng.random() < 0.8 else bytes(ln)
             vals[d] = v
             good += d.to_bytes(2, 'big') + v
         expect = 'rdbi ' + (','.join('%d=%s' % (d, bh(vals[d])) for d in lst) if lst else '-')
@@ -250,6 +250,8 @@ def gen_readmem(rng, n):
         blk = rb(rng, size)
         if size == 0:
             continue
+        if rng.random() < 0.4:
+            blk = blk[:-1] + b'\x00'      # genuine data may end in zero bytes
         out.append(DCase('read_memory_by_address', (lambda c, size=size: c.read_memory_by_address(MemoryLocation(0x1234, size, 16, 8))),
                          'dec e=readmem size=%d tol=%s' % (size, b01(tol)), blk, 'readMem %s' % bh(blk),
                          lambda r: 'readMem %s' % bh(r.service_data.memory_block), {'tolerate_zero_padding': tol}, rid=0x63, padclass='tol' if tol else 'notol-any'))
@@ -412,6 +414,8 @@ def gen_dtc(rng, n, nrec_max=6):
         extline = 'i2'
         padunit = None
         snapdids = SNAP_DIDS if k > 1 else {d_ & 0xFF: l_ for d_, l_ in SNAP_DIDS.items()}
+        if k >= 3:      # identifiers using the whole width, top bit included
+            snapdids = {(d_ | (1 << (8 * k - 1))) if i % 2 else d_: l_ for i, (d_, l_) in enumerate(SNAP_DIDS.items())}
 
         def nz(nb):
             while True:
@@ -619,6 +623,10 @@ def mutations(rng, good, n=6):
     """malformed stream for one good reply: prefixes, single-byte mutations over the boundary alphabet, extensions, zero padding"""
     alpha = [0x00, 0x01, 0x02, 0x03, 0x04, 0x05, 0x06, 0x07, 0x08, 0x10, 0x40, 0x7F, 0x80, 0xF0, 0xFF]
     out = []
+    if len(good) <= 40:
+        out += [good[:i] for i in range(len(good))]      # every truncation point
+    else:
+        out += [good[:-1], good[:-2]]
     for _ in range(n):
         r = rng.random()
         if r < 0.35 and len(good) > 0:
